@@ -74,6 +74,40 @@ M = [
  # supervision self-tests: a hang and an abort that only rare inputs trigger
  ("infra-hang", "C03", [(P, "                self.tail = tail;\n", "                if first.end == x && tail.len() > 5 {\n                    continue;\n                }\n                self.tail = tail;\n")]),
  ("infra-abort", "C16", [(P, "        assert!(!self.segments.is_empty(), \"no segments to pick from\");\n        match self.segments.iter().position(|seg| seg.end > x) {", "        assert!(!self.segments.is_empty(), \"no segments to pick from\");\n        if x == f64::NEG_INFINITY && self.segments.len() > 6 {\n            return self.evaluate(x) + 0.0;\n        }\n        match self.segments.iter().position(|seg| seg.end > x) {")]),
+ # library-global state: the answer depends on what an earlier call (possibly of an earlier run) did
+ ("infra-threadlocal", "C03", [(P, """impl<T: Evaluate> Evaluate for Piecewise<T> {
+    #[inline]
+    fn evaluate(&self, x: f64) -> f64 {
+        assert!(!self.segments.is_empty(), "no segments to pick from");
+        match self.segments.iter().position(|seg| seg.end > x) {
+            // No segment, use last
+            None => self.segments.last().unwrap().evaluate(x),
+            Some(seg_ix) => self.segments[seg_ix].evaluate(x),
+        }
+    }
+}""", """thread_local! {
+    // memo of the last lookup: (argument bits, number of segments, index found)
+    static LAST_LOOKUP: std::cell::Cell<(u64, usize, usize)> = const { std::cell::Cell::new((0, 0, 0)) };
+}
+
+impl<T: Evaluate> Evaluate for Piecewise<T> {
+    #[inline]
+    fn evaluate(&self, x: f64) -> f64 {
+        assert!(!self.segments.is_empty(), "no segments to pick from");
+        let (bx, bn, bi) = LAST_LOOKUP.with(|c| c.get());
+        if bx == x.to_bits() && bn == self.segments.len() && bn > 6 {
+            return self.segments[bi].evaluate(x);
+        }
+        match self.segments.iter().position(|seg| seg.end > x) {
+            // No segment, use last
+            None => self.segments.last().unwrap().evaluate(x),
+            Some(seg_ix) => {
+                LAST_LOOKUP.with(|c| c.set((x.to_bits(), self.segments.len(), seg_ix)));
+                self.segments[seg_ix].evaluate(x)
+            }
+        }
+    }
+}""")]),
  ("c19-any", "C19", [(P, "!ends.iter().all(|x| x.is_normal())", "!ends.iter().any(|x| x.is_normal())")]),
 ]
 os.makedirs(out, exist_ok=True)
